@@ -16,7 +16,7 @@ Monitors
 import itertools
 
 from verif.gen import kits
-from verif.instrument import safe_repr
+from verif.instrument import safe_repr, fingerprint
 from verif.models import meval, wiring, struct
 from verif.models import interchange_model as im
 from verif.models.typing import well_typed, tykey
@@ -285,11 +285,13 @@ def run_case(rng, ctx):
                    decorations=log)
     prev, steps, removed, moves, last = d, 0, 0, 0, d
     failure = None
+    yielded = []
     try:
         for item in d.normalize():
             steps += 1
             if steps > STEP_CAP:
                 break
+            yielded.append((item, fingerprint(item)))
             ok, why = well_typed(item)
             good = ok and tykey(item.dom) == tykey(d.dom)\
                 and tykey(item.cod) == tykey(d.cod)
@@ -327,6 +329,15 @@ def run_case(rng, ctx):
                  residue_connected=connected,
                  last=lambda: safe_repr(last, 2000), **witness)
         failure = "exception"
+    # prefixes of the trace: earlier steps are still the values that were judged
+    for k, (item, before) in enumerate(yielded):
+        now = fingerprint(item)
+        ctx.expect("step-sound", now == before, step_number=k + 1,
+                   reason="a step yielded earlier changed after the generator "
+                   "advanced", offsets_when_yielded=list(before[0]),
+                   offsets_now=list(now[0]), **witness)
+        if now != before:
+            break
     ctx.count("snakes_removed", removed)
     ctx.count("obstruction_moves", moves)
     connected = wiring.is_connected(last)
@@ -350,6 +361,13 @@ def run_case(rng, ctx):
             ctx.expect("normal-form-agrees", nf == last,
                        normal_form=lambda: safe_repr(nf, 2000),
                        last_step=lambda: safe_repr(last, 2000), **witness)
+            # the returned object fed back in: nothing left to do
+            again = nf.normal_form()
+            ctx.expect("normal-form-agrees", again == nf
+                       and not list(itertools.islice(nf.normalize(), 1)),
+                       where="normal form fed back in",
+                       normal_form=lambda: safe_repr(nf, 2000),
+                       again=lambda: safe_repr(again, 2000), **witness)
     except NotImplementedError:
         ctx.expect("only-NotImplementedError", not connected,
                    exception="NotImplementedError",
